@@ -1,32 +1,31 @@
 //! Ad-hoc experiments (not part of any registered check).
-use memvid_core::{Memvid, PutOptions};
-fn opts(ts: i64) -> PutOptions {
-    let mut o = PutOptions::default();
-    o.timestamp = Some(ts);
-    o.auto_tag = false; o.extract_dates = false; o.extract_triplets = false; o.extraction_budget_ms = 0; o.instant_index = false;
-    o
-}
+use memvid_core::Memvid;
 fn main() {
-    let dir = vh::util::Scratch::new("probe");
-    let p = dir.path("a.mv2");
-    let mut m = Memvid::create(&p).unwrap();
-    let mut o = opts(1); o.uri = Some("mv2://x/a".into());
-    m.put_bytes_with_options(b"kra1zto zq000x hello world", o).unwrap();
-    m.commit().unwrap();
-    let mut o = PutOptions::default(); o.title = Some("t1".into());
-    println!("upd1 {:?}", m.update_frame(0, None, o, None));
-    let mut o = PutOptions::default(); o.title = Some("t2".into());
-    println!("upd2 {:?}", m.update_frame(0, None, o, None));
-    println!("commit {:?}", m.commit());
-    for i in 0..m.frame_count() as u64 { let f = m.frame_by_id(i).unwrap(); println!("{} {:?} title={:?} sup={:?} by={:?} off={} len={}", f.id, f.status, f.title, f.supersedes, f.superseded_by, f.payload_offset, f.payload_length); }
-    drop(m);
-    let m = Memvid::open(&p);
-    println!("open: {:?}", m.as_ref().map(|m| m.frame_count()).map_err(|e| e.to_string()));
-    let mut m = m.unwrap();
-    println!("by uri: {:?}", m.frame_by_uri("mv2://x/a").map(|f| f.id));
-    println!("{:?}", m.frame_canonical_payload(1).map(|b| b.len()));
-    println!("{:?}", m.frame_canonical_payload(2).map(|b| b.len()));
-    println!("vacuum {:?}", m.vacuum());
-    drop(m);
-    println!("open: {:?}", Memvid::open(&p).map(|m| m.frame_count()).map_err(|e| e.to_string()));
+    let src = std::env::args().nth(1).unwrap();
+    let n: usize = std::env::args().nth(2).and_then(|s| s.parse().ok()).unwrap_or(30);
+    let threads: usize = std::env::args().nth(3).and_then(|s| s.parse().ok()).unwrap_or(1);
+    let stop = std::sync::Arc::new(std::sync::atomic::AtomicBool::new(false));
+    let st2 = stop.clone();
+    let spawner = std::thread::spawn(move || { let mut n = 0; while !st2.load(std::sync::atomic::Ordering::Relaxed) { let _ = std::process::Command::new("/bin/true").status(); n += 1; } n });
+    let mut hs = vec![];
+    for t in 0..threads {
+        let src = src.clone();
+        hs.push(std::thread::spawn(move || {
+            let dir = vh::util::Scratch::new("probe");
+            let mut fails = 0;
+            for i in 0..n {
+                let p = dir.path(&format!("m{t}-{i}.mv2"));
+                std::fs::copy(&src, &p).unwrap();
+                match Memvid::open(&p) {
+                    Ok(m) => { drop(m); }
+                    Err(e) => { fails += 1; if fails < 3 { println!("thread {t} iter {i}: {e}"); } }
+                }
+            }
+            fails
+        }));
+    }
+    let total: usize = hs.into_iter().map(|h| h.join().unwrap()).sum();
+    stop.store(true, std::sync::atomic::Ordering::Relaxed);
+    let spawned = spawner.join().unwrap();
+    println!("failures: {total} of {} (while spawning {spawned} processes)", n * threads);
 }
